@@ -17,7 +17,7 @@ CHECKS = {
     "C04": ("exploration",
             "hostile-input runtime monitor: recover around every public entry point, driver-side watchdog for non-termination, independent line-table check of every reported error position",
             "Valid generated programs, token-level mutations of them over the full token alphabet (every keyword and builtin name in every position), raw bytes and directed probes are fed to parser.ParseFile, File.String, Compiler.Compile+Bytecode+RemoveDuplicates, Script.Compile under random configurations (module maps incl. the input as its own module, 0/3/1000/1030 predeclared variables, file import, const-object limit) and as a module body. A panic or a watchdog firing is a violation; every position in a returned ErrorList/CompilerError is recomputed from an independent line table. Held on the inputs listed in evidence.",
-            "Inputs <= 64 KiB. Non-termination = 90 s without progress on a case that normally takes milliseconds."),
+            "Inputs <= 64 KiB. Non-termination = the worker spent 90 s of CPU time on one case of 40 inputs that normally take milliseconds, or sat blocked for that long (never the wall clock alone)."),
     "C05": ("exploration",
             "hostile-workload runtime monitor: worker-side recover and watchdogs around every context-aware entry point (Compiled.RunContext / Script.RunContext x cancellable / non-cancellable context), recovery run of the same Compiled with the hostile part switched off, post-run structural invariant walk of all globals (no Go-nil object), liveness probe of Get/Set/Clone/second RunContext, driver-side supervision of worker death, child-process probes for process-fatal inputs",
             "Hostile programs (failure atoms for every operator x type pair, index/slice/selector misuse, call misuse, runaway recursion of several shapes, mutation while iterating, every builtin with every argument type and arity, extreme arguments, immutable writes; planted at top level, in closures, loops, call arguments and module functions; plus generated programs with 15% ill-typed operations) are executed through RunContext with instruction and allocation budgets. A panic reaching the host, a call that does not return, a Go-nil object reachable from the globals, a host-side read that panics, or a compiled object that cannot be used again is a violation; worker death is caught by the driver. Cyclic containers (recorded finding) are probed by exact inputs in a child process. Held on the programs listed in evidence.",
@@ -37,15 +37,15 @@ CHECKS = {
     "C09": ("exploration",
             "history-over-one-object runtime monitor: shadow snapshot of the immutable value taken through Compiled.Get after its creation and after every operation of a random sequence, each operation being its own RunContext on the same Compiled",
             "Immutable values of four origins (immutable expression, freeze, module export, builtin-module table) built from fresh nested literals are subjected to random sequences of up to 12 operations on themselves and on everything derived from them; after every step the snapshot (whole tree for frozen values, immutable spine for shallow ones) must equal the first one. freeze is additionally checked for equality with its argument, no mutable container reachable from the result, and independence from later writes to the argument. Held on the sequences listed in evidence.",
-            "Trusted: values come from fresh literals (no prior mutable alias). Error payloads are opaque to freeze (identity-compared) and not generated inside frozen values."),
+            "Trusted: values come from fresh literals (no prior mutable alias). Containers inside error values are not generated below frozen values; the two exact inputs showing a frozen value changing through an error payload are probed and listed as known findings."),
     "C10": ("exploration",
             "algebraic-law runtime monitor over results of one compiled probe script run by the real VM for all ordered pairs of a boundary value pool plus random nested values; independent truthiness and conversion tables",
             "For each pair (a, b) the script evaluates ==, !=, <, <=, >, >= in both operand orders, six ways of observing truthiness, copy and the conversion builtins with and without default. The monitor checks symmetry, negation, converse, trichotomy and <=/>= consistency for same-ordered-type and int/float pairs, int/char ordering by code point without equality, the documented falsiness table, structural equality and state independence of copy (all mutable positions of copy and original are overwritten), and the documented conversion table. Held on the pairs listed in evidence.",
-            "Trusted: the independent tables in the harness (docs/runtime-types.md, docs/builtins.md). Identity-equality types (error, functions) are compared by payload."),
+            "Trusted: the independent tables in the harness (docs/runtime-types.md, docs/builtins.md). For errors and functions the generic copy law compares payloads; the literal claim copy(x) == x is probed on four exact inputs that are listed as known findings."),
     "C11": ("exploration",
             "metamorphic runtime monitor: each program and its scope-moving transformations (into a function, into a module, sub-expressions into immediately-invoked literals, consistent renaming, compositions) are run by the real engine and compared; reference interpreter as additional oracle for the base program; VM probe proves all three instruction families were exercised",
             "For every generated closure-heavy program P up to 10 variants T(P) are produced textually from the parser's positions; P and each T(P) run through Script.Compile/RunContext and must give the same values for P's top-level variables or the same error message and line. P is also compared with the reference interpreter. Held on the (program, transformation) pairs listed in evidence.",
-            "Trusted: the parser's node positions (used to cut expressions), the generator's guarantee that no closure outlives the loop iteration of a variable it captures."),
+            "Trusted: the parser's node positions (used to cut expressions), the generator's guarantee that no closure outlives the loop iteration of a variable it captures. Directed programs add variables named like builtins and shadowing after use."),
     "C03": ("translation_validation",
             "differential runtime monitor + assertion on hooked optimizer state: every program (generated control-heavy programs, module bodies with removable top-level code, functions larger than 64 KiB) compiled with and without dead-code elimination (build-tagged hook) and both run under the VM probe; optimizeFunc's own tables checked against an independently recomputed CFG",
             "Per program: (a) optimized and keep-dead twins are compiled in one process and run; globals, full error text and every trace position must be identical; (b) for every optimizeFunc invocation the hook delivers the original stream, the position map, the new stream and both source maps, and the monitor asserts that nothing removed is CFG-reachable, every kept jump points at the image of its target, source-map entries travel with their instruction and order/content is preserved. Held on the programs listed in evidence.",
@@ -53,11 +53,11 @@ CHECKS = {
     "C12": ("translation_validation",
             "differential runtime monitor over bytecode variants (raw / RemoveDuplicates / Encode+Decode / original after Encode) run through NewVM.Run under the probe, plus invariant check of the de-duplicated constant pool",
             "Per program (repeated literals, closures, a source module imported from several places, builtin modules, byte-identical functions): three fresh compilations are post-processed like Script.Compile and cmd/tengo do and run; globals, error text and positions must equal the raw run; CONST/CLOSURE operands are range/type checked and no two de-duplicable constants may be equal; the original is re-run and re-encoded after Encode. Held on the programs listed in evidence.",
-            "Trusted: gob (encoding), the reference model only as a filter for order-dependent programs."),
+            "Trusted: gob (encoding), the reference model only as a filter for order-dependent programs. Decoding uses a module map without the data-only host module the program was compiled with. Known finding: two imports of a host module with a mutable attribute share it after de-duplication."),
     "C13": ("exploration",
             "runtime monitors on the real compiler/VM: independent graph oracle (DFS) for cycle detection and compiled-once file-set multiplicity, reference-interpreter differential for module values, directed isolation probes, strace syscall monitor for file-system access with a positive control",
             "Import graphs (all digraphs on <= 3 modules, random on 4-7, plain and path-like non-canonical module names, imports in functions and dead branches) must compile exactly when no cycle is reachable from main and list every reachable module once in the file set; generated module bodies are imported by generated programs and compared with the reference interpreter (immutability, undefined without export, body re-run per evaluated import); isolation probes in both directions; one helper process per run is traced with strace -f -e trace=%file: with file import disabled no syscall mentions a canary path and compilation fails with 'module not found', with it enabled the canaries are opened (proves the monitor sees the access). Held on the cases listed in evidence.",
-            "Trusted: the harness's DFS; the reference interpreter's module semantics; strace."),
+            "Trusted: the harness's DFS; the reference interpreter's module semantics; strace. Module names are opaque keys (path-like, twin spellings); modules also arrive as objects through an embedder's own Importable. Known finding: a top-level return in a module body acts as a non-freezing export."),
     "C14": ("exploration",
             "reference-model runtime monitor for locations: the reference interpreter supplies the stack of executing statements, the real error's 'at file:line:col' trace is checked frame by frame against their source spans; errors.Is/As probes for sentinels and host errors",
             "Failing programs (planted failure of 30 kinds at call depth 0..12 behind functions with removable dead code, in main and in modules, multi-line and shared-line statements; generated programs with ill-typed operations) are run by the real engine and by the reference interpreter; message, frame count and containment of every reported position in the span of the statement executing in that frame are checked. Sentinels (allocation limit, stack overflow, index out of bounds, string/bytes limit) and a host error type are provoked at random depth and must be recognisable through errors.Is / errors.As. Held on the programs listed in evidence.",
@@ -65,7 +65,7 @@ CHECKS = {
     "C15": ("exploration",
             "history-versus-sequential-model runtime monitor over the embedding API (model's Run = reference interpreter, unique written values), plus round-trip law and independent coercion table for conversions and typed accessors",
             "(a) Random Go values of every supported and several unsupported types go through FromInterface, Script.Add, Compiled.Set, the script itself (type_name, value), ToInterface and Variable.Value; the result must be the input up to the documented normalisation, unsupported values must be rejected without touching the variable, and all typed accessors are compared with an independent coercion table. (b) Random sequences of up to 40 Add/Remove/Compile/Set/Run/Get/GetAll/IsDefined/Clone calls over 13 small scripts and several live Compiled objects are checked call by call against a sequential model; tengo.Eval is compared with the model. Held on the values and histories listed in evidence.",
-            "Trusted: the reference interpreter as the model of Run; the documented conversion and coercion tables."),
+            "Trusted: the reference interpreter as the model of Run; the documented conversion and coercion tables. The model shares the object given to Script.Add between compiled objects as the engine does; the exact history showing that sharing is probed and listed as a known finding."),
     "C16": ("exploration",
             "runtime monitor on the hooked VM state (frame index sampled by the probe at every dispatched instruction) combined with an executable model of the equivalent loop computed by the harness",
             "Generated self-recursive functions (1-6 parameters, variadic, locals, closures capturing parameters in chosen iterations) with the self call in tail, non-tail and free syntactic positions are run at depths up to 10^6; the result must equal the equivalent loop computed in Go, closures must report the parameter values of their own iteration, the maximum frame index must stay constant for tail positions and grow with the depth for non-tail positions; entering tail recursion from the last available frame and the discarded-result call form are probed. Held on the functions listed in evidence.",
@@ -73,7 +73,7 @@ CHECKS = {
     "C17": ("exploration",
             "differential runtime monitor: fmt.Sprintf as executable oracle over generated directives, 3 entry points, small-MaxStringLen family, totality under recover",
             "Every generated format call is executed by the real formatter (tengo.Format, builtin format, fmt.sprintf in a compiled script) and its text is compared byte-for-byte with fmt.Sprintf on the corresponding Go values; arbitrary format bytes and all object kinds are run under recover for totality; a family runs with MaxStringLen in {16,64,300} and requires text equality or ErrStringLimit exactly when Go's text exceeds the limit. Held on the executions listed in evidence, nothing is proved.",
-            "Trusted: Go's fmt of the local toolchain; the three exclusions named in the property; %T compared with Tengo type names."),
+            "Trusted: Go's fmt of the local toolchain; the three exclusions named in the property (%q on non-code-points, '#' with %x/%X on floats, EXTRA rendering); %T compared with Tengo type names; operands reached by '*' are Ints as the documentation requires."),
     "C19": ("exploration",
             "differential runtime monitor at script level: every documented member of text (incl. Regexp methods), math, base64, hex, enum and clock-independent times called from compiled scripts and judged against an independent reference table that calls the Go function named in docs/stdlib-*.md; modes: right-typed values, documented coercions, non-convertible types, wrong arities, Go-error inputs, string/bytes limit boundaries; sibling-separation accounting",
             "217 table entries, each exercised in every tier: one case = 24 script-level calls (boundary pools + structured random arguments designed to separate siblings of the same signature, e.g. needle at both ends, non-ASCII, float specials, times in UTC/fixed/named zones with a non-UTC local zone in half the times cases). Engine result must equal the reference value (bit-exact floats, instant+zone for times), Go errors must arrive as error values, wrong arity/type must be the corresponding run-time error, no call may die with a Go panic. The run fails itself if any entry was never judged or never separated from all its siblings. Held on the calls counted in evidence.",
@@ -85,7 +85,7 @@ CHECKS = {
     "C18": ("exploration",
             "differential runtime monitor: encoding/json (Valid, Decoder.UseNumber) as executable oracle over generated values, generated/mutated/raw decoder inputs; Go API and script level; panics caught under recover",
             "Each generated value is encoded by the real encoder; the bytes must be json.Valid, must be read by encoding/json as the same datum, and must decode back (real decoder) to an equal value with ints preserved exactly. Each decoder input (valid texts in random spellings, byte mutations, raw bytes) is decoded by the real decoder and must fail exactly when json.Valid is false, never panic, and yield the reference datum with int/float typing by literal form. Held on the executions listed in evidence.",
-            "Trusted: encoding/json of the local toolchain. Inputs <= 4 KiB. Float-overflow literals: totality only. Integer literals beyond int64 must come back as the float of that magnitude."),
+            "Trusted: encoding/json of the local toolchain. Generated/mutated inputs <= 4 KiB plus a nesting family 9999..3*10^6 deep. Float-overflow literals: totality only. Integer literals beyond int64 must come back as the float of that magnitude. Generated strings are valid UTF-8; three exact invalid strings are probed and listed as known findings."),
 }
 
 NOT_YET = "check not built yet in this session (planned, see DESIGN.md section 2)"
